@@ -185,6 +185,9 @@ class ScriptPeer:
             put(D0, ('data', g))
         elif letter == 'short':
             put(D0, ('data', b'\xaa\x55\x7f'))
+        elif letter.startswith('cut') and letter[3:].isdigit():
+            # the conforming answer cut off after N bytes (header only, header + function code, ...), nothing follows
+            put(D0, ('data', good[:int(letter[3:])]))
         elif letter == 'badsum':
             put(D0, ('data', bad))
         elif letter == 'foreign':
